@@ -181,7 +181,7 @@ Qed.
 Lemma areach_accept s r tok con : areach (abs s) (abs (accept s r tok con)).
 Proof.
   unfold accept.
-  set (g := mkreg r tok (s_gidctr s) con PWait 0 None false).
+  set (g := mkreg r tok (s_gidctr s) con PWait (-1) None false).
   match goal with |- context [if s_gate ?s1 then _ else _] => set (s2 := s1) end.
   assert (E : abs s2 = a_accept r tok con (abs s)).
   { subst s2. unfold abs, a_accept. fsimpl. cbn. rewrite map_app. reflexivity. }
